@@ -2,7 +2,8 @@
    Only the property theorems, each closed by [exact] of a lemma proved in Cache/…Facts.v. *)
 From Coq Require Import List ZArith.
 From Coq.Strings Require Import Byte.
-From GI Require Import Lib.Bytes Gen.CacheConsts Cache.CacheEntry Cache.CacheEntryFacts Cache.Cache Cache.CacheSeqFacts.
+From GI Require Import Lib.Bytes Gen.CacheConsts Cache.CacheEntry Cache.CacheEntryFacts Cache.Cache Cache.CacheSeqFacts
+  Cache.CacheFault Cache.CacheHolds Cache.CacheHoldsFacts.
 Import ListNotations.
 
 Theorem C05_entry_roundtrip : forall id out size tm,
@@ -80,3 +81,19 @@ Print Assumptions C05_put_get_persists.
 Theorem C05_path_name_inj : forall p q, path_name p = path_name q -> p = q.
 Proof. exact path_name_inj. Qed.
 Print Assumptions C05_path_name_inj.
+
+(* the executable forms the runner evaluates on every case *)
+Theorem C05_holds_on_true : forall (H : bytes -> bytes) fs ids, c05_holds_on H fs ids = true.
+Proof. exact c05_holds_on_true. Qed.
+Print Assumptions C05_holds_on_true.
+
+Theorem C05_put_holds_on_true : forall (H : bytes -> bytes),
+  (forall x, length (H x) = hash_size_n) ->
+  forall chunks fs id tm,
+  let d := concat chunks in
+  length id = hash_size_n ->
+  (0 <= tm < int64_lim)%Z -> (Z.of_nat (length d) < int64_lim)%Z ->
+  (forall c, fs (DatP (H d)) = Some c -> H c = H d -> c = d) ->
+  c05_put_holds_on H fs id chunks tm = true.
+Proof. exact c05_put_holds_on_true. Qed.
+Print Assumptions C05_put_holds_on_true.
